@@ -117,11 +117,11 @@ func parseSignedInt64(bytes []byte) (r int64, e error) {
 	return r, e
 }
 
-// identifierOf returns the identifier the encoder writes for a value of v's type: whether the encoding
+// identifierOf returns the identifier the encoder writes for a value of type t: whether the encoding
 // is constructed and its universal tag number. ok is false for the types that have no identifier of
 // their own (an untagged CHOICE, the "Value"/"List" wrappers, pointers).
-func identifierOf(v reflect.Value, params fieldParameters) (constructed bool, tagNumber uint64, ok bool) {
-	switch v.Type() {
+func identifierOf(t reflect.Type, params fieldParameters) (constructed bool, tagNumber uint64, ok bool) {
+	switch t {
 	case BitStringType:
 		return false, TagBitString, true
 	case OctetStringType:
@@ -133,7 +133,7 @@ func identifierOf(v reflect.Value, params fieldParameters) (constructed bool, ta
 	case ObjectIdentifierType:
 		return false, 0, false
 	}
-	switch v.Kind() {
+	switch t.Kind() {
 	case reflect.Bool:
 		return false, TagBoolean, true
 	case reflect.Int, reflect.Int32, reflect.Int64:
@@ -142,7 +142,7 @@ func identifierOf(v reflect.Value, params fieldParameters) (constructed bool, ta
 		if params.stringType != 0 {
 			return false, uint64(params.stringType), true
 		}
-		switch v.Type() {
+		switch t {
 		case UTF8StringType:
 			return false, TagUTF8String, true
 		case IA5StringType:
@@ -152,8 +152,8 @@ func identifierOf(v reflect.Value, params fieldParameters) (constructed bool, ta
 		}
 		return false, 0, true
 	case reflect.Struct:
-		if v.NumField() > 0 {
-			switch v.Type().Field(0).Name {
+		if t.NumField() > 0 {
+			switch t.Field(0).Name {
 			case "Value", "List":
 				return false, 0, false
 			case "Present":
@@ -169,6 +169,51 @@ func identifierOf(v reflect.Value, params fieldParameters) (constructed bool, ta
 		return true, TagSequence, true
 	}
 	return false, 0, false
+}
+
+// identifierMatches reports whether tal is the identifier identifierOf describes, under the
+// context tag of the member (IMPLICIT tagging) when it has one.
+func identifierMatches(tal tagAndLen, constructed bool, want uint64, params fieldParameters) bool {
+	if tal.constructed != constructed {
+		return false
+	}
+	if params.tagNumber != nil {
+		return tal.class == ClassContextSpecific && tal.tagNumber == *params.tagNumber
+	}
+	return tal.class == ClassUniversal && tal.tagNumber == want
+}
+
+// startsWith reports whether an element with the identifier tal can be the encoding of a value of
+// type t with the given parameters. It is how a SEQUENCE, SET or CHOICE finds the member an element
+// belongs to: by the context tag when the member has one, by the universal identifier of its type
+// (or of one of its alternatives, for an untagged CHOICE) otherwise.
+func startsWith(t reflect.Type, params fieldParameters, tal tagAndLen) bool {
+	if t.Kind() == reflect.Ptr {
+		return startsWith(t.Elem(), params, tal)
+	}
+	wrapper, choice := false, false
+	if t.Kind() == reflect.Struct && t.NumField() > 0 {
+		name := t.Field(0).Name
+		wrapper = name == "Value" || name == "List"
+		choice = name == "Present"
+	}
+	if params.tagNumber != nil && (params.explicitTag || choice) {
+		// EXPLICIT tagging and a tagged CHOICE: a constructed context-tagged wrapper
+		return identifierMatches(tal, true, 0, params)
+	}
+	if wrapper {
+		return startsWith(t.Field(0).Type, params, tal)
+	}
+	if choice {
+		for i := 1; i < t.NumField(); i++ {
+			if startsWith(t.Field(i).Type, parseFieldParameters(t.Field(i).Tag.Get("ber")), tal) {
+				return true
+			}
+		}
+		return false
+	}
+	constructed, want, ok := identifierOf(t, params)
+	return ok && identifierMatches(tal, constructed, want, params)
 }
 
 // ParseField is the main parsing function. Given a byte slice containing type value,
@@ -206,17 +251,8 @@ func ParseField(v reflect.Value, bytes []byte, params fieldParameters) error {
 
 	// The identifier octets must be the ones the type calls for: primitive or constructed, and the
 	// context tag of the member (IMPLICIT tagging) when it has one, the universal tag of the type otherwise.
-	if constructed, want, ok := identifierOf(v, params); ok {
-		if tal.constructed != constructed {
-			return fmt.Errorf("tag [%d %d]: wrong primitive/constructed form for %s", tal.class, tal.tagNumber, fieldType)
-		}
-		if params.tagNumber != nil {
-			if tal.class != ClassContextSpecific || tal.tagNumber != *params.tagNumber {
-				return fmt.Errorf("tag [%d %d] does not match the member's tag %d", tal.class, tal.tagNumber, *params.tagNumber)
-			}
-		} else if tal.class != ClassUniversal || tal.tagNumber != want {
-			return fmt.Errorf("tag [%d %d] does not match the type %s", tal.class, tal.tagNumber, fieldType)
-		}
+	if constructed, want, ok := identifierOf(fieldType, params); ok && !identifierMatches(tal, constructed, want, params) {
+		return fmt.Errorf("tag [%d %d] does not match the type %s", tal.class, tal.tagNumber, fieldType)
 	}
 
 	// We deal with the structures defined in this package first.
@@ -310,9 +346,7 @@ func ParseField(v reflect.Value, bytes []byte, params fieldParameters) error {
 				}
 
 				for i := 1; i < structType.NumField(); i++ {
-					if structParams[i].tagNumber == nil {
-						// TODO: choice type with a universal tag
-					} else if *structParams[i].tagNumber == tal.tagNumber {
+					if startsWith(structType.Field(i).Type, structParams[i], tal) {
 						present = i
 						break
 					}
@@ -355,7 +389,7 @@ func ParseField(v reflect.Value, bytes []byte, params fieldParameters) error {
 					if params.openType {
 						return fmt.Errorf("OpenType is not implemented")
 					}
-					if structParams[current].tagNumber != nil && *structParams[current].tagNumber == talNow.tagNumber {
+					if startsWith(structType.Field(current).Type, structParams[current], talNow) {
 						if err = ParseField(val.Field(current), bytes[offset:next], structParams[current]); err != nil {
 							return err
 						}
@@ -385,7 +419,7 @@ func ParseField(v reflect.Value, bytes []byte, params fieldParameters) error {
 					if params.openType {
 						return fmt.Errorf("OpenType is not implemented")
 					}
-					if structParams[current].tagNumber != nil && *structParams[current].tagNumber == talNow.tagNumber {
+					if startsWith(structType.Field(current).Type, structParams[current], talNow) {
 						if parse_err1 := ParseField(val.Field(current), bytes[offset:next], structParams[current]); parse_err1 != nil {
 							return parse_err1
 						}
